@@ -258,7 +258,11 @@ def check_signal(ns, d, x_list, comps, rep, subject, with_reset):
 
         def go():
             f = make_filter(ns, d)
-            if with_reset:
+            if with_reset == "flush":
+                # a whole earlier stream (fed and FLUSHED, ending loud) went through this object before
+                f.process(np.asarray([7, -9, 11, 13, -32768, 32767, 5, 32767, -32768][:max(2, n)], dtype=dt))
+                f.get_remaining()
+            elif with_reset:
                 f.process(np.asarray([7, -9, 11, 13, -32768, 32767, 5][:max(1, n)], dtype=dt))
                 f.reset_state()
             return run_split(f, x, sizes)
@@ -270,12 +274,12 @@ def check_signal(ns, d, x_list, comps, rep, subject, with_reset):
                      detail={"observed": repr(got)[:200]})
             continue
         if len(got) != n:
-            rep.case(case, ok=False, klass="length", nontrivial=nt, sig=f"{subject}:{d['cls']}:length" + (":after-reset" if with_reset else ""),
+            rep.case(case, ok=False, klass="length", nontrivial=nt, sig=f"{subject}:{d['cls']}:length" + ((":after-flush" if with_reset == "flush" else ":after-reset") if with_reset else ""),
                      detail={"expected_len": n, "observed_len": int(len(got))})
         elif not same(got, base, exact):
             i = int(np.argmax(~np.isclose(got, base))) if got.shape == base.shape else -1
             rep.case(case, ok=False, klass="split-differs", nontrivial=nt,
-                     sig=f"{subject}:{d['cls']}:split-differs" + (":after-reset" if with_reset else ""),
+                     sig=f"{subject}:{d['cls']}:split-differs" + ((":after-flush" if with_reset == "flush" else ":after-reset") if with_reset else ""),
                      detail={"first_difference": i, "one_block": base[max(0, i - 1):i + 3].tolist(),
                              "split": got[max(0, i - 1):i + 3].tolist()})
         else:
@@ -301,9 +305,10 @@ class Check(CheckBase):
             "8,10,12 thorough; length 24 with all splits of <=3 cut points): ALL 2^(n-1) ordered block splits, each followed "
             "by get_remaining(), compared with the one-block run (exact for int16, allclose for float); total length == n; "
             "16-bit presets compared with a saturating reference where the unsaturated value leaves the int16 range; the "
-            "same after process(garbage)+reset_state(). states = schedules (splits) executed, transitions = process/flush "
+            "same after process(garbage)+reset_state(), and after a complete earlier stream (fed and flushed) through the same object. states = schedules (splits) executed, transitions = process/flush "
             "calls. non-trivial = split containing a block shorter than the filter memory")
-    assumptions = ["the verdict is decided on the CURRENT text of fir.pyx / iir.pyx / common.py, executed through a small "
+    assumptions = ["a flushed filter starts the next stream like a new one (get_remaining ends a stream; every filter of the unchanged tree resets there)",
+                   "the verdict is decided on the CURRENT text of fir.pyx / iir.pyx / common.py, executed through a small "
                    "Cython-subset translator (mcv/engine/pyxlite.py; C integer wrap/division semantics are not emulated); "
                    "if the translator does not apply, the Python-level classes are exec'd with the compiled kernels bound in, "
                    "and edits confined to cdef kernels are then invisible",
@@ -344,7 +349,7 @@ class Check(CheckBase):
             subs = dict(self._subjects(rep))
             ns = subs.get(c["subject"]) or next(iter(subs.values()))
             sub = Report()
-            check_signal(ns, c["filter"], c["signal"], [c["split"]], sub, c["subject"], bool(c.get("reset")))
+            check_signal(ns, c["filter"], c["signal"], [c["split"]], sub, c["subject"], c.get("reset") if c.get("reset") == "flush" else bool(c.get("reset")))
             if sub.viol_count:
                 v = sub.violations[0]
                 rep.case(c, ok=False, klass=v["sig"], detail=v["detail"], sig=v["sig"])
@@ -372,6 +377,11 @@ class Check(CheckBase):
                     check_signal(ns, d, x, list(RF.compositions(len(x))), sub, subject, True)
                 for x in signals_exhaustive(3):
                     check_signal(ns, d, x, list(RF.compositions(len(x))), sub, subject, True)
+                # the same after a complete earlier stream (fed and flushed) through the same object
+                for x in signals_long((8,)):
+                    check_signal(ns, d, x, list(RF.compositions(len(x))), sub, subject, "flush")
+                for x in signals_exhaustive(3):
+                    check_signal(ns, d, x, list(RF.compositions(len(x))), sub, subject, "flush")
             if sub is rep:
                 rep.states += rep.evaluations - before
                 rep.traces += rep.evaluations - before
